@@ -120,13 +120,25 @@ fn fit_with<F: Fl, D: Distance<F> + std::fmt::Debug + 'static>(
     })
 }
 
-thread_local! {
-    static POOL1: rayon::ThreadPool = rayon::ThreadPoolBuilder::new().num_threads(1).build().unwrap();
+/// the one-thread pool; replaced when a fit got stuck inside it
+static POOL1: std::sync::Mutex<Option<std::sync::Arc<rayon::ThreadPool>>> = std::sync::Mutex::new(None);
+fn pool1() -> std::sync::Arc<rayon::ThreadPool> {
+    let mut g = POOL1.lock().unwrap();
+    if g.is_none() {
+        *g = Some(std::sync::Arc::new(rayon::ThreadPoolBuilder::new().num_threads(1).build().unwrap()));
+    }
+    g.as_ref().unwrap().clone()
 }
 /// fits of the current dataset run inside the one-thread pool (every other dataset; the assignment step is a
 /// rayon `par_for_each`, its result must not depend on the pool) - k-means|| replay always does
 static SINGLE_POOL: std::sync::atomic::AtomicBool = std::sync::atomic::AtomicBool::new(false);
+/// fits that did not return within FIT_TIMEOUT_S (their threads are abandoned; the process exits explicitly)
+static HUNG: std::sync::atomic::AtomicUsize = std::sync::atomic::AtomicUsize::new(0);
+const FIT_TIMEOUT_S: u64 = 20;
+const MAX_HUNG: usize = 3;
 
+/// every fit runs on its own thread under a watchdog: the instances are tiny (n <= 60, max_n_iterations <= 8,
+/// n_runs <= 5), so a fit that does not return within FIT_TIMEOUT_S is not bounded by its iteration budget
 fn do_fit<F: Fl>(m: Met, x: &Array2<F>, q: &Array2<F>, k: usize, init: &Init<F>, seed: u64, max_iter: u64, tol: F, n_runs: usize) -> Result<FitOut<F>, String> {
     let (x2, q2, init2) = (x.clone(), q.clone(), init.clone());
     let one_thread = matches!(init, Init::Para1) || (SINGLE_POOL.load(std::sync::atomic::Ordering::Relaxed) && !matches!(init, Init::Para));
@@ -138,7 +150,20 @@ fn do_fit<F: Fl>(m: Met, x: &Array2<F>, q: &Array2<F>, k: usize, init: &Init<F>,
         Ok(r) => r,
         Err(p) => Err(format!("PANIC: {}", p)),
     };
-    if one_thread { POOL1.with(|p| p.install(job)) } else { job() }
+    let pool = if one_thread { Some(pool1()) } else { None };
+    let (tx, rx) = std::sync::mpsc::channel();
+    std::thread::spawn(move || {
+        let r = match pool { Some(p) => p.install(job), None => job() };
+        let _ = tx.send(r);
+    });
+    match rx.recv_timeout(std::time::Duration::from_secs(FIT_TIMEOUT_S)) {
+        Ok(r) => r,
+        Err(_) => {
+            HUNG.fetch_add(1, std::sync::atomic::Ordering::Relaxed);
+            if one_thread { *POOL1.lock().unwrap() = None; }
+            Err(format!("TIMEOUT: fit with max_n_iterations={} n_runs={} did not return within {} s", max_iter, n_runs, FIT_TIMEOUT_S))
+        }
+    }
 }
 
 fn gen_data(rng: &mut Sm64, n: usize, d: usize, kind: u64) -> Vec<Vec<f64>> {
@@ -183,11 +208,12 @@ fn note_forms<F: Fl>(f: &FitOut<F>, fails: &mut Vec<(u64, String)>) {
     }
 }
 
-enum InitTerm<F> { Given(Vec<Vec<Vec<F>>>), Words(usize, Vec<u64>), ParaWords(usize, Vec<u64>), Hidden }
+enum InitTerm<F> { Given(Vec<Vec<Vec<F>>>), Replayed(Vec<Vec<Vec<F>>>), Words(usize, Vec<u64>), ParaWords(usize, Vec<u64>), Hidden }
 
 fn fit_term<F: Fl>(fuel: u64, tol: F, init: &InitTerm<F>, k: usize, f: &FitOut<F>, q: &[Vec<F>]) -> String {
     let it = match init {
         InitTerm::Given(l) => format!("InitGiven {}", clist(l, |m| F::mat(m))),
+        InitTerm::Replayed(l) => format!("InitRandom {}", clist(l, |m| F::mat(m))),
         InitTerm::Words(runs, w) => format!("InitPlusPlus {} ({})%N", cn(*runs as u64), clist(w, |v| format!("{}", v))),
         InitTerm::ParaWords(runs, w) => format!("InitPara1 {} ({})%N", cn(*runs as u64), clist(w, |v| format!("{}", v))),
         InitTerm::Hidden => "InitHidden".to_string(),
@@ -281,7 +307,7 @@ fn one_dataset<F: Fl>(id: u64, r: &mut Sm64, lim: &Limits, out: &mut Out) {
                 let inits = replay_random_inits(&x, k, seed, runs);
                 configs.push((b, runs));
                 match do_fit(m, &xa, &qa, k, &Init::Random, seed, b, tol, runs) {
-                    Ok(f) => { note_forms(&f, &mut rust_fails); fits.push(fit_term(b, tol, &InitTerm::Given(inits), k, &f, &q)) }
+                    Ok(f) => { note_forms(&f, &mut rust_fails); fits.push(fit_term(b, tol, &InitTerm::Replayed(inits), k, &f, &q)) }
                     Err(e) => { failed = Some(e); break; }
                 }
             }
@@ -362,7 +388,7 @@ fn one_dataset<F: Fl>(id: u64, r: &mut Sm64, lim: &Limits, out: &mut Out) {
             for b in 1..=lim.maxbudget {
                 configs.push((b, runs));
                 match do_fit(m, &xa, &qa, k, &Init::Random, seed, b, tol, runs) {
-                    Ok(f) => { note_forms(&f, &mut rust_fails); fits.push(fit_term(b, tol, &InitTerm::Given(inits.clone()), k, &f, &q)) }
+                    Ok(f) => { note_forms(&f, &mut rust_fails); fits.push(fit_term(b, tol, &InitTerm::Replayed(inits.clone()), k, &f, &q)) }
                     Err(e) => { failed = Some(e); break; }
                 }
             }
@@ -405,7 +431,8 @@ fn one_dataset<F: Fl>(id: u64, r: &mut Sm64, lim: &Limits, out: &mut Out) {
     }
     if let Some(e) = failed {
         // a finite dataset with k <= n must fit: an error or panic is a violation of "has exactly k finite centroids"
-        out.rust_fail(id, 1024, &tagrefs, &format!("fit failed: {}", e), &desc);
+        let code = if e.starts_with("TIMEOUT") { 16384 } else { 1024 };
+        out.rust_fail(id, code, &tagrefs, &format!("fit failed: {}", e), &desc);
         out.rust_eval(&desc, None);
     } else {
         let coq = format!(
@@ -425,8 +452,10 @@ fn main() {
     let args = parse_args();
     let mut rng = Sm64::new(args.seed);
     let thorough = args.tier == "thorough";
-    let ndatasets = if thorough { 4200 } else { 720 };
-    let mut out = Out::new(&args.out, args.shards, "C09.Corr", "case", args.only);
+    let ndatasets = if thorough { 4200 } else { 840 };
+    // the thorough tier writes about 30 MB of cases: more, smaller shards keep every coqc below 0.8 GB
+    let shards = if thorough { std::cmp::max(args.shards, 40) } else { args.shards };
+    let mut out = Out::new(&args.out, shards, "C09.Corr", "case", args.only);
     let lim64 = Limits {
         maxn: if thorough { 60 } else { 28 }, maxk: 5, maxd: 4, maxbudget: if thorough { 8 } else { 5 },
         maxruns: if thorough { 5 } else { 3 }, nquery: 4, scales: &[1.0, 1.0, 1.0, 1e-9, 3e-8, 1e-4, 1e7, 1e-158],
@@ -440,6 +469,13 @@ fn main() {
         let mut r = rng.fork();
         // every 3rd dataset is an f32 one (ids are spread over the shards modulo 16, so the slow cases are too)
         if id % 3 == 2 { one_dataset::<f32>(id, &mut r, &lim32, &mut out) } else { one_dataset::<f64>(id, &mut r, &lim64, &mut out) }
+        if HUNG.load(std::sync::atomic::Ordering::Relaxed) >= MAX_HUNG {
+            // every hung fit keeps a core busy: stop generating, the verdict is a violation anyway
+            out.bump("generation_stopped_after_non_terminating_fits");
+            break;
+        }
     }
     out.finish("datasets drawn from 5 families (separated blobs, overlapping clouds, integer lattice with duplicates, fewer distinct points than clusters, large offset) x float type (f64, every third f32) x metric x stream (precomputed initial centroids from the data / arbitrary with growing budget, random and k-means++ with growing n_runs, k-means|| in the default pool (oracle only), precomputed x n_runs >= 2 x growing budget, random x n_runs >= 2 x growing budget, k-means|| replayed in a one-thread pool with growing n_runs); every fit also answers predict (matrix, single rows and four further call forms) and transform (three layouts) on a query set; a case is non-trivial when k > 1 and the data has > 1 distinct point; distinct = distinct (data, k, stream, float type) hashes");
+    // abandoned fit threads (if any) must not keep the process alive
+    std::process::exit(0);
 }
